@@ -41,7 +41,8 @@ ASSUMPTIONS = [
     'together: series i covers (lb[i], ub[i]] with disjoint intervals; with both lists and a None inside the lb list only the increasing order is used '
     '(_is_non_decreasing cannot tell the direction of a 2-list holding a None; the statement is silent on that spelling)',
     'n-column stitch: a row exists at t in interval i iff at least one of series i..i+n-1 has data at t; cells of series without data there (or beyond the last series) are NaN',
-    'df_unslice is only applied to n >= 2 results of a ub-list stitch, with the bounds in increasing order; not to the n = 1 result (a Series); '
+    'stitching also runs on series holding NaN-valued rows (a row that is there stays there); df_unslice is only applied when no series holds such a row (an all-NaN row of the '
+    'stitched frame cannot be told from a missing one), to n >= 2 results of a ub-list stitch, with the bounds in increasing order; not to the n = 1 result (a Series); '
     'asserted: a dict with one pd.Series per bound, and df_slice([res[b] for b in ub], ub=ub, n=n) equals the stitched frame (NaN-aware, same index, same columns)',
 ]
 
@@ -410,9 +411,9 @@ def check_tod(case):
 
 NDAYS = 6
 PATS_Q2 = ['111111', '000000', '101010', '000111', '111000']
-PATS_Q3 = ['111111', '000000', '101010', '000111']
+PATS_Q3 = ['111111', '000000', '101010', '121212']
 PATS_T2 = ['111111', '000000', '101010', '010101', '000111', '111000', '110011', '100000', '000001', '011110', '001100', '100001']
-PATS_T3 = ['111111', '000000', '101010', '000111', '111000']
+PATS_T3 = ['111111', '000000', '101010', '000111', '111000', '121212', '212121']
 PATS_T4 = ['111111', '000000', '101010']
 POS_Q = [0, 1, 4, 5, 8, 9, 11, 12]
 POS_Q3 = [0, 1, 4, 5, 8, 11, 12]
@@ -429,12 +430,12 @@ def gen_stitch(tier):
 
 
 def _mk_series(s, pat):
-    ids = [i for i in range(NDAYS) if pat[i] == '1']
-    return pd.Series([10.0 * s + i for i in ids], index=pd.DatetimeIndex([BASE + i * DAY for i in ids]), dtype=float)
+    ids = [i for i in range(NDAYS) if pat[i] != '0']          # '1' = an observation, '2' = a row that is there but holds NaN
+    return pd.Series([(np.nan if pat[i] == '2' else 10.0 * s + i) for i in ids], index=pd.DatetimeIndex([BASE + i * DAY for i in ids]), dtype=float)
 
 
 def _model_series(s, pat):
-    return {BASE + i * DAY: 10.0 * s + i for i in range(NDAYS) if pat[i] == '1'}
+    return {BASE + i * DAY: (np.nan if pat[i] == '2' else 10.0 * s + i) for i in range(NDAYS) if pat[i] != '0'}
 
 
 def _stitch_model(models, intervals, n):
@@ -465,7 +466,7 @@ def check_stitch(case):
 
     def untouched(given):
         return len(given) == k and all(a is b for a, b in zip(given, series)) and \
-            all(s.index.equals(i0) and s.values.shape == v0.shape and bool((s.values == v0).all()) and s.dtype == float
+            all(s.index.equals(i0) and s.values.shape == v0.shape and bool(((s.values == v0) | ((s.values != s.values) & (v0 != v0))).all()) and s.dtype == float
                 for s, (i0, v0) in zip(series, snaps))
 
     for lastp in rest:
@@ -524,7 +525,7 @@ def check_stitch(case):
                     if switches >= 2:
                         out.nontrivial('%s|%s|%s|%d' % (P, direction, mode, n))
                     # ---- the inverse
-                    if ok and mode == 'ub' and n >= 2 and direction == 'inc':
+                    if ok and mode == 'ub' and n >= 2 and direction == 'inc' and not any('2' in p_ for p_ in pats):      # (an all-NaN row of the frame cannot be told from a missing one)
                         out.sub()
                         _check_unslice(out, df_slice, df_unslice, res, B, n, label, dict(sig, rows=min(len(exp_t), 1)))
                         out.cls('unslice')
